@@ -428,11 +428,19 @@ func (ms *Modules) Process() []error {
 // include resolves all the include and import statements for m.  It returns
 // an error if m, or recursively, any of the modules it includes or imports,
 // reference a module that cannot be found.
-func (ms *Modules) include(m *Module) error {
+func (ms *Modules) include(m *Module) (err error) {
 	if ms.includes[m] {
 		return nil
 	}
 	ms.includes[m] = true
+	// A module whose includes or imports could not all be found is not
+	// done: the next Process must try again (the missing module may have
+	// been loaded in between) and report the failure again if it persists.
+	defer func() {
+		if err != nil {
+			delete(ms.includes, m)
+		}
+	}()
 
 	// First process any includes in this module.
 	for _, i := range m.Include {
